@@ -219,3 +219,138 @@ func (fr *frame) effectFree(c *ssa.CallCommon) bool {
 	}
 	return false
 }
+
+// autoAppendOnly: a slice variable that the loop changes only by `x = append(x, ...)`, in a loop in which nothing else
+// writes an element of that type, keeps what it held on entry: it never gets shorter and its leading elements stay
+// what they were. (That is what makes "append every value in an inner loop, store the slice once" provable against a
+// clause that says "what was there before is still there" - no manual invariant can be expected for a local the
+// contract has never heard of.)
+func (fr *frame) autoAppendOnly(li *loopInfo, entryVal func(*ssa.Phi) *Val, st, ns *State, reach string) {
+	u := fr.u
+	h := li.header
+	for _, in := range h.Instrs {
+		p, ok := in.(*ssa.Phi)
+		if !ok {
+			break
+		}
+		sl, ok := p.Type().Underlying().(*types.Slice)
+		if !ok || len(p.Edges) != len(h.Preds) {
+			continue
+		}
+		chainSet := map[ssa.Value]bool{p: true}
+		var chain func(v ssa.Value) bool
+		chain = func(v ssa.Value) bool {
+			if chainSet[v] {
+				return true
+			}
+			switch x := v.(type) {
+			case *ssa.Call:
+				if b, isB := x.Call.Value.(*ssa.Builtin); isB && b.Name() == "append" && len(x.Call.Args) >= 1 {
+					if chain(x.Call.Args[0]) {
+						chainSet[v] = true
+						return true
+					}
+				}
+			case *ssa.Phi:
+				if x.Block() != nil && li.body[x.Block().Index] && x.Block() != h {
+					chainSet[v] = true // assume, check the edges
+					for _, e := range x.Edges {
+						if !chain(e) {
+							delete(chainSet, v)
+							return false
+						}
+					}
+					return true
+				}
+			}
+			return false
+		}
+		good, hasBack := true, false
+		for i, e := range p.Edges {
+			if li.body[h.Preds[i].Index] {
+				hasBack = true
+				if !chain(e) {
+					good = false
+				}
+			}
+		}
+		if !good || !hasBack || !fr.onlyChainWrites(li, sl.Elem(), chainSet) {
+			continue
+		}
+		ev, hv := entryVal(p), fr.vals[p]
+		if ev == nil || hv == nil || ev.t == "" || hv.t == "" {
+			continue
+		}
+		s := u.sorts
+		es := s.sortOf(sl.Elem())
+		name := "E:" + s.typeKey(sl.Elem())
+		hs := "(Array Int (Array Int " + es + "))"
+		h0, h1 := u.heapGet(st, name, hs), u.heapGet(ns, name, hs)
+		j := u.fresh("j")
+		u.assume(reach, fmt.Sprintf("(and (>= (s-len %s) (s-len %s)) (forall ((%s Int)) (=> (and (<= 0 %s) (< %s (s-len %s))) (= (select (select %s (s-arr %s)) (+ (s-off %s) %s)) (select (select %s (s-arr %s)) (+ (s-off %s) %s))))))",
+			hv.t, ev.t, j, j, j, ev.t, h1, hv.t, hv.t, j, h0, ev.t, ev.t, j))
+		u.abstract("auto-invariant:append-only")
+	}
+}
+
+// onlyChainWrites: inside the loop, elements of type et are written by nothing but the appends of the chain.
+func (fr *frame) onlyChainWrites(li *loopInfo, et types.Type, chainSet map[ssa.Value]bool) bool {
+	sameElem := func(t types.Type) bool {
+		switch x := t.Underlying().(type) {
+		case *types.Slice:
+			return types.Identical(x.Elem(), et)
+		case *types.Pointer:
+			if a, ok := x.Elem().Underlying().(*types.Array); ok {
+				return types.Identical(a.Elem(), et)
+			}
+		}
+		return false
+	}
+	var throughIndex func(v ssa.Value) bool
+	throughIndex = func(v ssa.Value) bool {
+		switch x := v.(type) {
+		case *ssa.IndexAddr:
+			return sameElem(x.X.Type()) || throughIndex(x.X)
+		case *ssa.FieldAddr:
+			return throughIndex(x.X)
+		}
+		return false
+	}
+	key := "E:" + fr.u.eng.keySorts.typeKey(et)
+	for _, b := range fr.fn.Blocks {
+		if !li.body[b.Index] {
+			continue
+		}
+		for _, in := range b.Instrs {
+			switch x := in.(type) {
+			case *ssa.Store:
+				if throughIndex(x.Addr) {
+					return false
+				}
+			case ssa.CallInstruction:
+				c := x.Common()
+				if bi, isB := c.Value.(*ssa.Builtin); isB {
+					switch bi.Name() {
+					case "append":
+						if len(c.Args) > 0 && sameElem(c.Args[0].Type()) {
+							if v, isV := in.(ssa.Value); !isV || !chainSet[v] {
+								return false
+							}
+						}
+					case "copy", "clear":
+						if len(c.Args) > 0 && sameElem(c.Args[0].Type()) {
+							return false
+						}
+					}
+					continue
+				}
+				for k := range fr.u.eng.callMods(c, fr) {
+					if k == "*" || k == key || k == "P"+key {
+						return false
+					}
+				}
+			}
+		}
+	}
+	return true
+}
